@@ -717,11 +717,19 @@ class Machine:
         via = op.get("via", "call")
         if pos is None:
             return srf(**kw)
-        if via == "structured":
-            return srf.structured(pos, **kw)
-        if via == "unstructured":
-            return srf.unstructured(pos, **kw)
-        return srf(pos, mesh_type=mesh_type, **kw)
+        try:
+            if via == "structured":
+                return srf.structured(pos, **kw)
+            if via == "unstructured":
+                return srf.unstructured(pos, **kw)
+            return srf(pos, mesh_type=mesh_type, **kw)
+        finally:
+            # the caller reuses its position arrays after the call: the field object must keep
+            # its own copy (layout "reuse" later evaluates at the ORIGINAL points)
+            for a in (pos if isinstance(pos, (list, tuple)) else [pos]):
+                if isinstance(a, np.ndarray) and a.dtype == np.double:
+                    a += 3.25
+            self.ctx.probe("pos_arrays_mutated_after_call")
 
     def _twin_store(self, store):
         return {True: "tw_a", False: True, "alt": False, "second": "field"}[store]
